@@ -283,7 +283,7 @@ def execute(case):
     nodes = [n for n in C15.reachable_buildables(cfg)[1:] if type(n) is fdl.Config]
     r.shuffle(nodes)
     subs = {f'sub_{i}': n for i, n in enumerate(nodes[:case['sub']])} or None
-  want = graphs.canon(cfg, order_dicts=True)
+  want = graphs.canon(cfg, order_dicts=True, ituples=True)
   obs['special'] = contains(cfg, special_float)
   obs['has_namedtuple'] = contains(cfg, graphs.is_namedtuple)
   obs['has_tags'] = any(ts for n in C15.reachable_buildables(cfg) for ts in n.__argument_tags__.values())
@@ -304,11 +304,11 @@ def execute(case):
           cfg, sub_fixtures=subs, max_expression_complexity=case['complexity'], include_history=case['history'])
   except Exception as e:
     obs['codegen'] = f'raised {type(e).__name__}: {e}'[:200]
-    obs['input_unchanged'] = graphs.canon(cfg, order_dicts=True) == want
+    obs['input_unchanged'] = graphs.canon(cfg, order_dicts=True, ituples=True) == want
     return obs, None
   obs['codegen'] = 'ok'
   obs['code'] = code
-  obs['input_unchanged'] = graphs.canon(cfg, order_dicts=True) == want
+  obs['input_unchanged'] = graphs.canon(cfg, order_dicts=True, ituples=True) == want
   try:
     compile(code, '<generated>', 'exec')
     obs['compiles'] = True
@@ -321,7 +321,7 @@ def execute(case):
   except Exception as e:
     obs['run'] = f'raised {type(e).__name__}: {e}'[:200]
     return obs, None
-  got = graphs.canon(back, order_dicts=True)
+  got = graphs.canon(back, order_dicts=True, ituples=True)
   obs['same'] = got == want
   if not obs['same']:
     obs['got'], obs['want'] = got, want
@@ -341,10 +341,16 @@ def execute(case):
 
 
 def ntuple_as_tuple(c):
-  """Canonical form in which named tuples print as plain tuples (the recorded finding)."""
+  """Canonical form in which named tuples print as plain tuples (the recorded finding); a tuple
+  that thereby becomes a tuple of literals prints without identity, like every such tuple."""
+  lit = lambda v: isinstance(v, str) or (isinstance(v, list) and v and v[0] == 'ituple')
   if isinstance(c, list):
     if len(c) == 4 and c[0] == 'ntuple':
-      return ['tuple', c[1], [ntuple_as_tuple(v) for _, v in c[3]]]
+      items = [ntuple_as_tuple(v) for _, v in c[3]]
+      return ['ituple', items] if all(map(lit, items)) else ['tuple', c[1], items]
+    if len(c) == 3 and c[0] == 'tuple' and isinstance(c[2], list):
+      items = [ntuple_as_tuple(v) for v in c[2]]
+      return ['ituple', items] if all(map(lit, items)) else ['tuple', c[1], items]
     return [ntuple_as_tuple(x) for x in c]
   return c
 
@@ -412,7 +418,7 @@ def oracle(case, real):
     if 'class' not in f:
       from harness.props import C20 as _c20
       if (real.get('same') is False and real['has_namedtuple']
-          and _c20.expand(ntuple_as_tuple(real['want'])) == _c20.expand(real['got'])):
+          and ntuple_as_tuple(_c20.expand(real['want'])) == ntuple_as_tuple(_c20.expand(real['got']))):
         f['class'] = 'codegen-namedtuple'         # the only difference: NamedTuple -> plain tuple
     return f
   if not real['input_unchanged']:
